@@ -64,7 +64,7 @@ def proj_parse(kind):
     return f
 
 
-PROJ = dict(identity=proj_identity, accept=proj_parse('accept'), header=proj_parse('header'),
+PROJ = dict(script_all=None, identity=proj_identity, accept=proj_parse('accept'), header=proj_parse('header'),
             text=proj_parse('text'), body=proj_parse('body'))
 
 HTML_ASSUME = ['Display impls hand their text to write_str in pieces and forward fmt::Error',
@@ -156,6 +156,95 @@ PLANS = {
         level_note='Trusted: Lean kernel; hand-written model; generator\'s notion of admissible layout.',
         design_ref='DESIGN.md §6 C15',
     ),
+    'C17': dict(
+        module='RucteProps.C17',
+        theorems=[],
+        runs=[dict(suite='script', mix='statics,tree', n=dict(quick=150, thorough=3000), projection='script+stdout', tags=['C17'])],
+        correspondence='the lines printed to stdout by a whole build-script run (public API, child process) vs Ructe.build, given the same input tree and read_dir order',
+        rule='random build scripts over compile_templates / add_file / add_files / add_file_as / add_files_as (nested sub-directories) / add_file_data on random trees (tmpfs and ext4, relative and absolute paths); oracle: every directory listed and every file read or embedded is covered by a cargo:rerun-if-changed line for itself or an ancestor; non-trivial = distinct run outputs',
+        assumptions=['cargo re-runs a build script when a listed path, or anything under a listed directory, changes (cargo\'s documented rule, modelled as the `covered` predicate)', 'add_sass_file reads through rsass\' CargoContext, which prints its own lines: opaque'],
+        level_text='Theorem announced (every path the model reads is covered by a printed line) over Ructe.build; tie on the printed lines; oracle on the implementation with the harness\' own knowledge of the inputs.',
+        level_note='Trusted: Lean kernel; hand-written model of lib.rs / staticfiles.rs on an abstract file system; cargo\'s rerun rule.',
+        design_ref='DESIGN.md §6 C17',
+    ),
+    'C10': dict(
+        module='RucteProps.C10',
+        theorems=[],
+        runs=[dict(suite='script', mix='tree', n=dict(quick=200, thorough=4000), projection='script+files+stdout', tags=['C10'])],
+        correspondence='the whole OUT_DIR (paths and bytes) and stdout of compile_templates on a directory tree vs Ructe.build given the observed read_dir order',
+        rule='random trees to depth 4 with identifier stems / directory names, mixed suffixes, same stem under different suffixes, non-template files, empty directories, broken templates among valid ones; oracle: exactly the expected files, each the code generated for that template alone, declaration chains present, broken templates warned and undeclared; non-trivial = distinct run outputs',
+        assumptions=['file and directory names are UTF-8', 'that the declared functions are callable at every depth is rustc\'s name resolution (e2e)'],
+        level_text='Theorems about Ructe.handleEntries (tree_mirror style lemmas) + tie on the whole OUT_DIR + independent oracle on file set, contents, declarations and warnings.',
+        level_note='Trusted: Lean kernel; hand-written model of lib.rs on an abstract file system.',
+        design_ref='DESIGN.md §6 C10',
+    ),
+    'C12': dict(
+        module='RucteProps.C12',
+        theorems=[],
+        runs=[dict(suite='script', mix='history', n=dict(quick=120, thorough=2500), projection='script+files+writes', tags=['C12'])],
+        correspondence='OUT_DIR contents after a run and the set of physically rewritten files (mtime) vs Ructe.build / writeIfChanged on the observed prior OUT_DIR state',
+        rule='edit histories (add / modify / delete / break templates, sub-directories, statics) of 1..4 edits with a run after each, output files replaced by garbage / non-UTF-8 / truncated at 0, mid, len-1 bytes; every run compared with a clean build into an empty directory; a directly repeated run must rewrite nothing; non-trivial = distinct run outputs',
+        assumptions=['an output path is a file or absent', 'read_dir yields the same order for an unchanged directory'],
+        level_text='Theorems writeIfChanged_post, incremental_eq_clean, second_run_silent over Ructe.build for every prior file-system state; tie on contents and physical writes; oracle: byte-identical to a clean build, second run silent.',
+        level_note='Trusted: Lean kernel; hand-written model; a crash during the run under test is outside the model (the theorem quantifies over what earlier crashes left).',
+        design_ref='DESIGN.md §6 C12',
+    ),
+    'C18': dict(
+        module='RucteProps.C18',
+        theorems=[],
+        runs=[dict(suite='script', mix='tree,statics', n=dict(quick=150, thorough=3000), projection='script+files', tags=['C18']),
+              dict(suite='parse', mix='examples,structured', n=dict(quick=1500, thorough=50000), projection='text', tags=['C18'])],
+        correspondence='generated files byte for byte vs the model\'s single answer; the same tree in shuffled creation orders and other locations (tmpfs / ext4) must agree',
+        rule='every tree scenario again with shuffled creation order (= read_dir order on tmpfs) at another location; the code for (name, template bytes) recorded across all scenarios; non-trivial = distinct run outputs + distinct accepted syntax trees',
+        assumptions=[],
+        level_text='Theorems template_code_pure / decls_order_only / statics_order_pure over Ructe.build; tie on file bytes; oracle: twins agree, same template gives same code everywhere.',
+        level_note='Trusted: Lean kernel; hand-written model.',
+        design_ref='DESIGN.md §6 C18',
+    ),
+    'C07': dict(
+        module='RucteProps.C07',
+        theorems=[],
+        runs=[dict(suite='script', mix='statics', n=dict(quick=200, thorough=4000), projection='script+names', tags=['C07'], statics_oracle=True)],
+        correspondence='get_names() (identifier -> URL name) after a script vs Ructe.namesAfter (Lean MD5 + base64)',
+        rule='contents: empty, 1 byte, all 256 byte values, MD5 block edges 55/56/57/63/64/65/119/120/128, random; 58 file names (several dots, trailing dot, leading dot, dashes, every punctuation byte, non-ASCII); add_file / add_files / add_file_data in shuffled orders from different directories; oracle: python hashlib.md5 + base64 recomputation; non-trivial = items checked',
+        assumptions=['changing a byte changes the name unless MD5 collides on its first 48 bits'],
+        level_text='Theorems urlName_shape, b64url6_injective, urlName_pure (for every 16-byte hash function) + tie on names + independent hashlib oracle.',
+        level_note='Trusted: Lean kernel; hand-written model; md5 / base64 crates assumed to implement RFC 1321 / RFC 4648 (cross-checked against the Lean MD5 and hashlib on every run).',
+        design_ref='DESIGN.md §6 C07',
+    ),
+    'C08': dict(
+        module='RucteProps.C08',
+        theorems=[],
+        runs=[dict(suite='script', mix='statics', n=dict(quick=200, thorough=4000), projection='script+files', tags=['C08'], statics_oracle=True)],
+        correspondence='text of statics.rs vs Ructe.Statics.finish; every printed content / path / name literal decoded by the Lean model of rustc\'s lexer',
+        rule='as C07, all five add_* entry points; oracle: decoded content literal = data, decoded include_bytes! path = file path, decoded name literal = published URL name; non-trivial = items checked',
+        assumptions=['rustc lexes literals as the Rust Reference says (e2e compile is the judge)'],
+        level_text='Theorems byteString_roundtrip, name_roundtrip (every byte string / every UTF-8 name, every uniEsc) + tie on statics.rs + literal-decoding oracle.',
+        level_note='Trusted: Lean kernel; hand-written model of Rust literal syntax and of add_static.',
+        design_ref='DESIGN.md §6 C08',
+    ),
+    'C09': dict(
+        module='RucteProps.C09',
+        theorems=[],
+        runs=[dict(suite='script', mix='statics', n=dict(quick=200, thorough=4000), projection='script+files+names', tags=['C09'], statics_oracle=True)],
+        correspondence='the STATICS line and names of statics.rs vs the model',
+        rule='as C07 with name sets straddling - . _ digits upper/lower case and common prefixes, shuffled insertion orders (twins); oracle: STATICS lists each published name once in ascending byte order; non-trivial = items checked',
+        assumptions=['Rust Ord for str and BTreeMap<String,_> are byte-lexicographic; binary_search_by_key finds an element iff present in a sorted slice'],
+        level_text='Theorems btree_insert_sorted, statics_complete_sorted, get_exact + tie + oracle on STATICS order.',
+        level_note='Trusted: Lean kernel; hand-written model; std BTreeMap / binary_search contracts.',
+        design_ref='DESIGN.md §6 C09',
+    ),
+    'C16': dict(
+        module='RucteProps.C16',
+        theorems=[],
+        runs=[dict(suite='script', mix='statics', n=dict(quick=200, thorough=4000), projection='script+names', tags=['C16'], statics_oracle=True)],
+        correspondence='identifiers (keys of get_names(), item names) vs Ructe.mangle',
+        rule='as C07; oracle: identifier = every non-alphanumeric char replaced by _, n before a leading digit, legal Rust identifier; non-trivial = items checked',
+        assumptions=['char::is_alphanumeric on non-ASCII scalars is a parameter of the model'],
+        level_text='Theorems mangle_ascii, mangle_is_ident, getNames_maps + tie + oracle.',
+        level_note='Trusted: Lean kernel; hand-written model.',
+        design_ref='DESIGN.md §6 C16',
+    ),
 }
 
 
@@ -241,9 +330,223 @@ def literal_oracle(res, ctx, tags=('C01',)):
     return fails, n_checked
 
 
+# ------------------------------------------------------------------------------ script-suite helpers
+def parse_answer(a):
+    out = {}
+    for f in a.split('|'):
+        k, _, v = f.partition('=')
+        out[k] = v
+    return out
+
+
+def answer_files(a):
+    f = parse_answer(a).get('files', '')
+    return {unhex(x.split(':')[0]).decode('utf-8', 'replace'): unhex(x.split(':')[1]) for x in f.split(',') if x}
+
+
+def parse_entries(s, i=0):
+    """entries: f<name>:<content> | d<name>(<entries>) ; returns (list, next index)"""
+    out = []
+    while i < len(s):
+        c = s[i]
+        if c == 'f':
+            j = i + 1
+            while j < len(s) and (s[j].isalnum() or s[j] == '-'):
+                j += 1
+            name = unhex(s[i + 1:j])
+            k = j + 1
+            while k < len(s) and (s[k].isalnum() or s[k] == '-'):
+                k += 1
+            out.append(('f', name, unhex(s[j + 1:k])))
+            i = k
+        elif c == 'd':
+            j = i + 1
+            while j < len(s) and (s[j].isalnum() or s[j] == '-'):
+                j += 1
+            name = unhex(s[i + 1:j])
+            sub, k = parse_entries(s, j + 1)
+            out.append(('d', name, sub))
+            i = k + 1          # skip ')'
+        else:
+            break
+        if i < len(s) and s[i] == ',':
+            i += 1
+        else:
+            break
+    return out, i
+
+
+def name_and_ext(fname):
+    """independent re-statement of Path::file_name / extension for a final component"""
+    if fname == b'..' or b'.' not in fname:
+        return None
+    i = fname.rfind(b'.')
+    if i == 0:
+        return None
+    return fname[:i], fname[i + 1:]
+
+
+def py_slug(data):
+    import base64, hashlib
+    return base64.urlsafe_b64encode(hashlib.md5(data).digest()[:6]).rstrip(b'=')
+
+
+def py_mangle(name):
+    s = name.decode('utf-8', 'replace')
+    m = ''.join(ch if ch.isalnum() else '_' for ch in s)
+    if m == '' or (m[0].isascii() and m[0].isdigit()):
+        m = 'n' + m
+    return m.encode()
+
+
+def expected_statics(req):
+    """the adds a script performs, in order, re-derived from the request by python alone"""
+    f = req.split(' ')
+    ops = [] if f[6] == '-' else f[6].split(';')
+    adds = []
+
+    def hashed(path, content, data=None):
+        ne = name_and_ext(path.rsplit(b'/', 1)[-1])
+        if ne is None:
+            return
+        n, e = ne
+        adds.append(dict(path=path, ident=py_mangle(n + b'_' + e), url=n + b'-' + py_slug(content if data is None else data) + b'.' + e,
+                         data=data, content=content, hashed=True, ext=e))
+
+    def walk_as(d, to, entries):
+        for kind, name, sub in entries:
+            to2 = name if to == b'' else to + b'/' + name
+            if kind == 'f':
+                ne = name_and_ext(name)
+                adds.append(dict(path=d + b'/' + name, ident=py_mangle(to2), url=to2, data=None, content=None, hashed=False,
+                                 ext=ne[1] if ne else b''))
+            else:
+                walk_as(d + b'/' + name, to2, sub)
+
+    for op in ops:
+        t = op.split(':')
+        if t[0] == 'F':
+            hashed(unhex(t[1]), unhex(t[2]))
+        elif t[0] == 'B':
+            hashed(unhex(t[1]), None, data=unhex(t[2]))
+        elif t[0] == 'A':
+            path, url = unhex(t[1]), unhex(t[2])
+            ne = name_and_ext(path.rsplit(b'/', 1)[-1])
+            adds.append(dict(path=path, ident=py_mangle(url), url=url, data=None, content=None, hashed=False, ext=ne[1] if ne else b''))
+        elif t[0] == 'D':
+            d = unhex(t[1])
+            entries, _ = parse_entries(':'.join(t[2:]))
+            for kind, name, sub in entries:
+                if kind == 'f':
+                    hashed(d + b'/' + name, sub)
+        elif t[0] == 'S':
+            entries, _ = parse_entries(':'.join(t[3:]))
+            walk_as(unhex(t[1]), unhex(t[2]), entries)
+    return adds
+
+
+ITEM_RE = re.compile(r'\n/// From (.*)\n#\[allow\(non_upper_case_globals\)\]\npub static (\S+): StaticFile = StaticFile \{\n\s*content: (.*),\n\s*name: (.*),\n(?:\s*mime: &(.*),\n)?\};\n')
+STATICS_RE = re.compile(r'\npub static STATICS: &\[&StaticFile\] = &\[(.*)\];\n')
+
+
+def statics_oracle(res, ctx):
+    """C07 / C08 / C09 / C16 on the implementation: names, hashes, identifiers, literals and the
+    STATICS order, against expectations python derives from the scenario alone (hashlib, base64)
+    and the Lean model of rustc's literal lexer."""
+    fails = []
+    lit_reqs, lit_items = [], []
+    n_items = 0
+    for i, (req, ans) in enumerate(zip(res['req'], res['impl'])):
+        if not req.startswith('script '):
+            continue
+        adds = expected_statics(req)
+        if not adds:
+            continue
+        pa = parse_answer(ans)
+        files = answer_files(ans)
+        sp = [p for p in files if p.endswith('/templates/statics.rs')]
+        if not sp:
+            fails.append(dict(tags=['C08', 'C09'], kind='statics-missing', case=i, detail='statics.rs was not written', request=req[:2000]))
+            continue
+        text = files[sp[0]].decode('utf-8', 'replace')
+        got_names = {unhex(x.split('=')[0]): unhex(x.split('=')[1]) for x in pa.get('names', '').split(',') if x}
+
+        def fail(tags, kind, detail):
+            fails.append(dict(tags=tags, kind=kind, case=i, detail=detail, request=req[:3000]))
+        # --- C07 / C16: get_names() maps the derived identifier to the hashed URL name
+        want_names = {}
+        for a in adds:
+            want_names[a['ident']] = a['url']
+        for a in adds:
+            n_items += 1
+            g = got_names.get(a['ident'])
+            if g is None:
+                fail(['C16'], 'identifier', f"file {a['path']!r}: expected identifier {a['ident']!r} is not a key of get_names() {sorted(got_names)!r}")
+            elif g != want_names[a['ident']]:
+                fail(['C07'] if a['hashed'] else ['C16', 'C09'], 'url-name',
+                     f"file {a['path']!r}: get_names()[{a['ident']!r}] = {g!r}, expected {want_names[a['ident']]!r} (md5/base64 recomputed independently)")
+            if not re.fullmatch(rb'[A-Za-z_][A-Za-z0-9_]*', a['ident']) and a['ident'].isascii():
+                fail(['C16'], 'identifier-illegal', f"{a['ident']!r} is not a legal identifier")
+        # --- items as printed
+        items = ITEM_RE.findall(text)
+        if len(items) != len(adds):
+            fail(['C08', 'C09'], 'item-count', f'{len(adds)} files added but {len(items)} items printed')
+        for a, (frm, ident, content, namelit, mime) in zip(adds, items):
+            if ident.encode() != a['ident']:
+                fail(['C16'], 'item-identifier', f"file {a['path']!r}: item is called {ident!r}, expected {a['ident']!r}")
+            lit_reqs.append('declit s ' + (namelit.encode().hex() or '-'))
+            lit_items.append((i, req, ['C08'], 'name-literal', namelit, a['url'], a))
+            if content.startswith('b"'):
+                lit_reqs.append('declit b ' + (content.encode().hex() or '-'))
+                lit_items.append((i, req, ['C08'], 'content-literal', content, a['data'] if a['data'] is not None else b'<not data>', a))
+            elif content.startswith('include_bytes!(') and content.endswith(')'):
+                inner = content[len('include_bytes!('):-1]
+                lit_reqs.append('declit s ' + (inner.encode().hex() or '-'))
+                lit_items.append((i, req, ['C08'], 'content-path', inner, a['path'] if a['data'] is None else b'<data expected>', a))
+            else:
+                fail(['C08'], 'content-form', f'unrecognised content expression {content[:80]!r}')
+        # --- C09: STATICS lists each published name exactly once, ascending by name
+        m = STATICS_RE.search(text)
+        if not m:
+            fail(['C09'], 'statics-line', 'no STATICS line')
+        else:
+            idents = [x.strip().lstrip('&') for x in m.group(1).split(',') if x.strip()]
+            by_url = {}
+            for a in adds:
+                by_url[a['url']] = a['ident']          # a URL name published twice is one entry (last wins)
+            want = [by_url[u].decode('utf-8', 'replace') for u in sorted(by_url)]
+            if idents != want:
+                fail(['C09'], 'statics-order', f'STATICS = {idents}, expected (ascending byte order of name) {want}')
+    wd = res['wdir']
+    with open(wd + '/slit_req.txt', 'w') as f:
+        f.write('\n'.join(lit_reqs) + ('\n' if lit_reqs else ''))
+    with open(wd + '/slit_req.txt', 'rb') as fin:
+        out = subprocess.run([ctx['driver']], stdin=fin, capture_output=True, timeout=3600).stdout.decode().split('\n')
+    for k, (i, req, tags, kind, lit, want, a) in enumerate(lit_items):
+        ans = out[k] if k < len(out) else ''
+        if ans == 'some ' + (want.hex() or '-'):
+            continue
+        if ans == 'none':
+            detail = f"file {a['path']!r}: the printed literal {lit[:200]!r} does not lex as one Rust literal (the statics module does not compile)"
+        else:
+            got = unhex(ans.split(' ')[1]) if ans.startswith('some ') else ans
+            detail = f"file {a['path']!r}: the printed literal {lit[:200]!r} denotes {got[:200]!r}, expected {want[:200]!r}"
+        fails.append(dict(tags=tags, kind=kind, case=i, detail=detail, request=req[:3000]))
+    return fails, n_items
+
+
+def proj_script(keys):
+    def f(req, ans):
+        if not req.startswith('script '):
+            return ans
+        p = parse_answer(ans)
+        return '|'.join(k + '=' + p.get(k, '') for k in keys)
+    return f
+
+
 # ------------------------------------------------------------------------------ execution
 def compare(res, projection):
-    p = PROJ[projection]
+    p = PROJ.get(projection) or (proj_script(projection.split('+')[1:]) if projection.startswith('script+') else None)
     out = []
     for i, (r, a, b) in enumerate(zip(res['req'], res['impl'], res['model'])):
         if a == b:
@@ -281,6 +584,10 @@ def execute(prop, plan, ctx):
             lf, nlit = literal_oracle(res, ctx, tags=r['tags'])
             oracle += lf
             st['literals.decoded'] = nlit
+        if r.get('statics_oracle'):
+            sf, nitems = statics_oracle(res, ctx)
+            oracle += [o for o in sf if set(o['tags']) & set(r['tags'])]
+            st['statics.items_checked'] = nitems
         cov['evaluations'] += st.get('cases', len(res['req']))
         cov['distinct_nontrivial'] += sum(v for kk, v in st.items() if kk.startswith('distinct.'))
         cov['distribution'][f"{r['suite']}:{r.get('mix', 'all')}"] = st
@@ -307,6 +614,8 @@ def search(prop, plan, ctx, disagreements, pr):
             oracle += [o for o in res['oracle'] if set(o.get('tags', [])) & set(r['tags'])]
             if r.get('literal_oracle'):
                 oracle += literal_oracle(res, ctx, tags=r['tags'])[0]
+            if r.get('statics_oracle'):
+                oracle += [o for o in statics_oracle(res, ctx)[0] if set(o['tags']) & set(r['tags'])]
         if oracle:
             break
     return dict(oracle=oracle, coverage=dict(evaluations=evals))
